@@ -7,6 +7,7 @@ import pcw_rules
 import blob_rules
 import page_rules
 import crc_rules
+import codec_rules
 import bounds_rules
 
 TECHNIQUE = "independent tables instead of an independent decoder: binary layout tables and XML vocabulary written from the standard are compared with the tables extracted from the writer's MIR (byte ranges, widths, endianness, ids, length conventions; parent/element/E57-type triples of the maximal XML skeleton); skeleton well-formedness by tokenisation; header/section patch dataflow; page sealing rules"
@@ -48,6 +49,9 @@ def run(ctx):
         ctx.call(pcw_rules.accept_once, prog, "R5")
         ctx.call(bounds_rules.validation_before_update, prog, "R5")
         ctx.call(blob_rules.write_protocol, prog, "R5")
+        if cfg == "lib":
+            ctx.call(codec_rules.stored_form, prog, "R5")
+            ctx.call(codec_rules.add_bits_shape, prog, "R5")
         ctx.call(page_rules.seal_before_emit, prog, "R6", "table" if cfg == "lib" else "crate")
         ctx.call(page_rules.flush_before_seek, prog, "R6")
         ctx.call(page_rules.reload_after_advance, prog, "R6")
